@@ -123,7 +123,7 @@ CLAIMED['C15'] = dict(
     text='Syntax: the numeral rule types are compared with the documented syntax as prefix matchers over all inputs; the hand-written scanners are explored on every byte-class string up to the '
          'length bound (never read past the end, never consume on failure, only digits reach accumulate_digit, overflow reported as documented). Conversion: for every instantiated (type, maximum) '
          'pair accumulate_digit is proved by interval analysis to store old*10+digit without wrap and to fail exactly when the value exceeds the maximum; the wrappers only combine these; '
-         'convert_negative yields -magnitude exactly and without undefined behaviour (defect D14 found by this check and fixed).',
+         'convert_negative yields -magnitude exactly and without undefined behaviour (defect D14 found by this check and fixed); is_digit is exact over all 256 char values; a bounded rule calls the matcher instantiated for its own type and maximum in both apply modes.',
     ref='5/C15, 4.8')
 
 CLAIMED['C18'] = dict(
@@ -131,7 +131,7 @@ CLAIMED['C18'] = dict(
     text='limit_depth: on every path of every instantiation (both apply modes - actions disabled sections included - and both rewind modes) the depth counter is incremented before the guarded match '
          'and restored on success, local failure and exception by the guard destructor; the error is raised iff the depth after the increment exceeds Maximum (exactly Maximum levels). limit_bytes: '
          'the temporary end is current() + min(size(), Maximum) - counted from where the match starts, wherever that is - the guarded rule sees it, and the saved end is restored on every completion; '
-         'neither guard can be copied or moved. Inspection beyond the window is excluded by C03.',
+         'neither guard can be copied or moved; the depth counter lives in unsigned objects as wide as the limit (the enumeration treats it as unbounded). Inspection beyond the window is excluded by C03.',
     ref='5/C18')
 
 CLAIMED['C12'] = dict(
